@@ -406,7 +406,7 @@ def prelude(env) -> str:
     return "\n".join(lines) + "\n"
 
 
-RUNNER = r'''
+SHOW_SRC = r'''
 import json, sys, warnings, math
 warnings.simplefilter("ignore")
 def show(v):
@@ -427,6 +427,9 @@ def show(v):
         return "<type " + ("type(None)" if n == "NoneType" else n) + ">"
     if hasattr(t, "_id"): return "<obj %d>" % t._id
     return "<" + t.__name__ + ">"
+'''
+
+RUNNER = SHOW_SRC + r'''
 jobs = json.load(sys.stdin)
 out = []
 for prelude, stmt in jobs:
